@@ -277,8 +277,14 @@ PROPS["C02"] = dict(
     level_note=_MODELLED + "The audit is evaluated on dumps of the real node store; in-place reordering is "
                "covered by C13's scripts. Soundness of the audit w.r.t. the tree-level predicate: see DESIGN.")
 PROPS["C06"] = dict(
-    gens=[("hist", gen.gen_hist, 1.0)], quick=40, thorough=500, rule=_AUDIT_RULE,
-    level_text="Reference-count clauses (incoming count = parent references + registered root edges; no "
+    gens=[("hist", gen.gen_hist, 0.8), ("node-level", gen.gen_C06_nodes, 0.6)], quick=40, thorough=500, rule=_AUDIT_RULE,
+    level_text="Proved (RefStoreP): for every history of node creations (unique-table lookup), reference "
+               "duplications and drops (recursive reclamation) the recorded counts are exact, an identifier is "
+               "live iff referenced, children are live and below their parent, no duplicates, and nothing is "
+               "live when no reference is held; the 8/16/32-bit counter array refines unbounded counts. Tie: "
+               "node-level histories driven through unpacked nodes / linkNode / unlinkNode with the recorded "
+               "count of every held node and the number of live nodes compared with the model machine after "
+               "every step; and reference-count clauses (incoming count = parent references + registered root edges; no "
                "unreferenced live node beyond what the deletion policy allows; nothing live after everything is "
                "released and caches cleared; held edges re-evaluate to the same table) evaluated by the "
                "extracted Gallina audit on the implementation's dump after every few lines, incl. fan-in "
